@@ -20,7 +20,20 @@
         (white space is allowed exactly in front of tokens: every token is read through readToken,
          which starts with the white-space scanner; a comment glued to the END of a name is part of
          the name, as any other byte that is not / > = or white space)
-   "(and processing instructions before the root element)"  -> xml_pi_before_root_skipped
+        next to text (parseText's own skipSpace call, Xml.cpp:402) and for whole documents:
+                                                            -> xml_parser_depends_on_text_only (the whole
+                                                               descent, up to recorded positions),
+                                                               xml_comment_before_text (parseText),
+                                                               xml_comment_gap_in_content (the content loop at
+                                                               any depth: a gap that begins with a comment in
+                                                               front of text, a child or the end tag),
+                                                               xml_gap_before_document (parse (g ++ d) ~ parse d)
+        (white space BEHIND a comment in front of text is swallowed with the comment, white space IN FRONT
+         of it becomes a text node of its own: hence "gap that begins with a comment" and text_start)
+   "(and processing instructions before the root element)"  -> xml_pi_before_root_skipped,
+                                                               xml_pi_before_document (parse (<?a?> ++ d) ~ parse d
+                                                               for bodies a without ? CR LF NUL; a body with
+                                                               line breaks: Example ex_pi_line_break only)
    "for every element tree with well-formed names, arbitrary
     attribute values and non-blank, non-adjacent text nodes,
     parsing the output of toString yields the same names,
@@ -45,7 +58,7 @@
    Only statements closed by `exact`, each followed by Print Assumptions, plus non-vacuity
    Examples. *)
 From Coq Require Import ZArith List Bool.
-From Xml Require Import Gen_Xml XmlSpec XmlModel XmlProofsCodec XmlProofsScan XmlProofsTotal XmlProofsRound XmlProofsComment XmlProofsHandles XmlProofsReuse.
+From Xml Require Import Gen_Xml XmlSpec XmlModel XmlProofsCodec XmlProofsScan XmlProofsTotal XmlProofsRound XmlProofsComment XmlProofsContext XmlProofsHandles XmlProofsReuse.
 Import ListNotations.
 Local Open Scope Z_scope.
 
@@ -161,6 +174,64 @@ Proof. split; vm_compute; reflexivity. Qed.
 (* <?x?><!--c---><a <!--LF-->/>  : a processing instruction, a comment before the root, a comment inside the tag *)
 Example ex_comments_and_pi :
   parse ([60;63;120;63;62] ++ comment [99;45] ++ [60;97;32] ++ comment [10] ++ [47;62]) = Ok (N 1 15 [97] [] []).
+Proof. vm_compute. reflexivity. Qed.
+
+(* ---- comments next to text, comments and processing instructions in front of the document ---- *)
+
+(* rrel R x y: the two results are of the same kind, Ok values are related by R, failures carry the same
+   message (line and column differ: they label the cursor).  Rnode / Rlist / Rdoc: equal after erasing
+   the recorded positions, same remaining text. *)
+Theorem xml_parser_depends_on_text_only : forall f,
+  (forall tp tp' p p', rest p = rest p' -> rrel Rnode (parseElement f tp p) (parseElement f tp' p')) /\
+  (forall acc acc' p p', map erase acc = map erase acc' -> rest p = rest p' ->
+     rrel Rlist (parseContent f acc p) (parseContent f acc' p')).
+Proof. exact parse_rec_ri. Qed.
+Print Assumptions xml_parser_depends_on_text_only.
+
+Theorem xml_comment_before_text : forall b g' p p', comment_body b = true -> gap g' ->
+  rest p = comment b ++ g' ++ rest p' -> text_start (rest p') ->
+  rrel Rtext (parseText p) (parseText p').
+Proof. exact parseText_gap. Qed.
+Print Assumptions xml_comment_before_text.
+
+Theorem xml_comment_gap_in_content : forall f acc b g' p p', comment_body b = true -> gap g' ->
+  rest p = comment b ++ g' ++ rest p' -> text_start (rest p') ->
+  rrel Rlist (parseContent f acc p) (parseContent f acc p').
+Proof. exact parseContent_gap. Qed.
+Print Assumptions xml_comment_gap_in_content.
+
+Theorem xml_gap_before_document : forall g d, gap g -> rrel Rdoc (parse (g ++ d)) (parse d).
+Proof. exact parse_gap_before_document. Qed.
+Print Assumptions xml_gap_before_document.
+
+Theorem xml_pi_before_document : forall a d, pi_body a = true ->
+  rrel Rdoc (parse ([60; 63] ++ a ++ [63; 62] ++ d)) (parse d).
+Proof. exact parse_pi_before_document. Qed.
+Print Assumptions xml_pi_before_document.
+
+Theorem xml_more_fuel_same_answer : forall f,
+  (forall tp p, parseElement f tp p <> Fuel -> parseElement (S f) tp p = parseElement f tp p) /\
+  (forall acc p, parseContent f acc p <> Fuel -> parseContent (S f) acc p = parseContent f acc p).
+Proof. exact parse_rec_fuel. Qed.
+Print Assumptions xml_more_fuel_same_answer.
+
+(* <a><!--c--> SP <!--d-->x<b/><!--e--></a>  against  <a>x<b/></a> : same tree up to positions *)
+Example ex_comments_in_content :
+  option_map erase (match parse ([60;97;62] ++ comment [99] ++ [32] ++ comment [100] ++ [120;60;98;47;62] ++ comment [101] ++ [60;47;97;62])
+                    with Ok n => Some n | _ => None end)
+  = option_map erase (match parse [60;97;62;120;60;98;47;62;60;47;97;62] with Ok n => Some n | _ => None end)
+  /\ parse [60;97;62;120;60;98;47;62;60;47;97;62] = Ok (N 1 1 [97] [] [T [120]; N 1 5 [98] [] []]).
+Proof. split; vm_compute; reflexivity. Qed.
+
+(* the two restrictions are real: white space in front of the comment is a text node of its own,
+   white space behind it is swallowed:   <a> <!--c--> x</a>   gives   " " and "x" *)
+Example ex_space_around_comment :
+  parse ([60;97;62;32] ++ comment [99] ++ [32;120;60;47;97;62]) = Ok (N 1 1 [97] [] [T [32]; T [120]]).
+Proof. vm_compute. reflexivity. Qed.
+
+(* a processing instruction whose body holds a line break (outside xml_pi_before_document): the
+   line is counted, the root is on line 2 *)
+Example ex_pi_line_break : parse [60;63;120;10;121;63;62;60;97;47;62] = Ok (N 2 4 [97] [] []).
 Proof. vm_compute. reflexivity. Qed.
 
 (* ---- round trip --------------------------------------------------------------------------- *)
